@@ -23,19 +23,50 @@ def offset_of(e, lid):
     return None
 
 
-def deletion_loop(f):
+def char_of(a, binding):
+    a = strip(a, casts=True)
+    if a.get('k') == 'char':
+        return chr(a['v'])
+    if a.get('k') == 'param' and a.get('i') in binding:
+        return binding[a['i']]
+    lit = str_value(a)
+    return lit if lit is not None and len(lit) == 1 else None
+
+
+def deletion_loop(f, prog=None, binding=None, depth=0):
     """classify the body of remove_line/remove_whitespace.
     returns (verdict, what, literal) verdict True/False/None(unknown idiom)"""
+    binding = binding or {}
     st = flat_stmts(f.body)
-    # idiom (b): erase-remove
+    # forwarding to a helper of the repository: helper(str, 'c')
+    if len(st) == 1 and prog is not None and depth < 3:
+        e = strip(st[0], casts=True)
+        if e.get('k') == 'return' and e.get('e') is not None:
+            e = strip(e['e'], casts=True)
+        if e.get('k') == 'call' and e.get('inrepo') and e.get('args') and is_param(e['args'][0], 0):
+            g = prog.by_q.get(e['q'], [])
+            if len(g) == 1:
+                b2 = {}
+                for i, a in enumerate(e['args'][1:], 1):
+                    ch = char_of(a, binding)
+                    if ch is not None:
+                        b2[i] = ch
+                v, what, lit = deletion_loop(g[0], prog, b2, depth + 1)
+                return v, 'forwards to %s: %s' % (g[0].n, what), lit
+    # idiom (b): erase-remove on the string parameter: str.erase(std::remove(str.begin(), str.end(), c), str.end())
     for c in calls(f.body, name='erase'):
-        inner = [x for x in calls(c) if x.get('n') in ('remove', 'remove_if')]
-        if inner:
-            ch = None
-            for a in inner[0]['args']:
-                a = strip(a, casts=True)
-                if a.get('k') == 'char':
-                    ch = chr(a['v'])
+        inner = [x for x in calls(c) if x.get('n') in ('remove',)]
+        if inner and is_param(c.get('obj'), 0) and len(c['args']) == 2 and len(inner[0]['args']) == 3:
+            def range_call(x, nm):
+                x = strip(x, casts=True)
+                while x.get('k') == 'construct' and len(x['args']) == 1:
+                    x = strip(x['args'][0], casts=True)
+                return x.get('k') == 'call' and x.get('n') == nm and is_param(x.get('obj'), 0)
+            whole = range_call(inner[0]['args'][0], 'begin') and range_call(inner[0]['args'][1], 'end') and range_call(c['args'][1], 'end') and \
+                any(x is inner[0] for x in walk(c['args'][0]))
+            ch = char_of(inner[0]['args'][2], binding)
+            if not whole:
+                return False, 'erase-remove does not cover [begin, end) of the string', ch
             return True, 'erase-remove idiom', ch
     # idiom (a): find / erase loop
     if len(st) >= 2 and st[0].get('k') == 'decl' and len(st[0]['vars']) == 1 and st[1].get('k') in ('while',):
@@ -108,38 +139,39 @@ def run(ctx, prog):
         h = prog.fn('MASA::' + n)
         ctx.require(len(h) == 1, 'MASA::%s not found' % n)
         helpers[n] = h[0]
-    # ---- N1
-    st = flat_stmts(fm.body)
-    target = None  # ('local', id) or ('param',)
-    applied = []
-    copied_in = stored_back = False
-    for s in st:
-        e = strip(s, casts=True)
-        if e.get('k') == 'decl':
-            for v in e['vars']:
-                if STR in v['t']:
-                    target = v['id']
-                    if v.get('init') is not None:
-                        i = strip(v['init'], casts=True)
-                        i = strip(i['args'][0], casts=True) if i.get('k') == 'construct' and i['args'] else i
-                        if i.get('k') == 'un' and i['op'] == '*' and is_param(i['e'], 0):
-                            copied_in = True
-        elif e.get('k') == 'call' and e.get('n') == 'operator=' and e.get('opcall'):
-            l, r = strip(e['args'][0], casts=True), strip(e['args'][1], casts=True)
-            if is_local(l, target) and r.get('k') == 'un' and r['op'] == '*' and is_param(r['e'], 0) and not applied:
-                copied_in = True
-            if l.get('k') == 'un' and l['op'] == '*' and is_param(l['e'], 0) and is_local(r, target):
-                stored_back = len(applied) == 3 or stored_back
-        elif e.get('k') == 'call' and e.get('n') in helpers and e.get('q', '').startswith('MASA::'):
-            a = strip(e['args'][0], casts=True)
-            if is_local(a, target) and copied_in:
-                applied.append(e['n'])
-            elif a.get('k') == 'un' and a['op'] == '*' and is_param(a['e'], 0):
-                applied.append(e['n'])
-                copied_in = stored_back = True
-    ok = set(applied) == set(helpers) and copied_in and stored_back
-    ctx.ob('C13.N1', 'masa_map', ok, fm.where, 'pipeline applies %s (copy-in=%s, store-back after all three=%s)' % (applied, copied_in, stored_back),
-           sample='temp=*in; %s; *in=temp' % ', '.join(applied))
+    # ---- N1: forward substitution of masa_map with the three helpers as uninterpreted string functions
+    from .. import terms
+    E = terms.Evaluator(prog)
+
+    def hook(ev, e, n, obj, args_e, P, fr):
+        if n in helpers and e.get('inrepo') and e.get('q', '').startswith('MASA::') and len(args_e) == 1:
+            old = ev.E(args_e[0], P, fr)
+            ev.assign(args_e[0], ('call', n, (old,)), P, fr, e.get('l'))
+            return terms.num(0)
+        return None
+    E.call_hook = hook
+    outs = [o for o in E.run(fm) if o.kind != 'exit']
+    pn = fm.params[0]['n']
+    probs = []
+    if not outs:
+        probs.append('no returning path')
+    for o in outs:
+        st_ = [e for e in o.events if e[0] == 'write-through' and e[1] == ('sym', pn)]
+        if not st_:
+            probs.append('a path returns without storing to *%s' % pn)
+            continue
+        v = st_[-1][3] if len(st_[-1]) > 3 else None
+        if v is not None and v[0] == 'call' and v[1] == 'container:assign' and len(v[2]) == 2:
+            v = v[2][1]
+        applied = []
+        while v is not None and v[0] == 'call' and v[1] in helpers and len(v[2]) == 1:
+            applied.append(v[1])
+            v = v[2][0]
+        if v not in (('sym', pn + '*'), ('deref', ('sym', pn))):
+            probs.append('the stored string derives from `%s`, not from the input' % (terms.fmt(v)[:50] if v else None))
+        elif set(applied) != set(helpers):
+            probs.append('the stored string is %s of the input: %s not applied' % (' of '.join(applied) or 'a plain copy', sorted(set(helpers) - set(applied))))
+    ctx.ob('C13.N1', 'masa_map', not probs, fm.where, '; '.join(probs[:2]), sample='*in = remove_whitespace(remove_line(uptolow(*in)))')
     # ---- N2
     up = helpers['uptolow']
     ok, why = False, 'no index loop over the whole string'
@@ -170,19 +202,41 @@ def run(ctx, prog):
                 ok, why = True, ''
             else:
                 why = 'loop body is `%s`, expected str[i] = tolower(str[i])' % show(body[0])
+    recognised = ok or why != 'no index loop over the whole string'
     if not ok:
-        tr = [c for c in calls(up.body) if c.get('n') == 'transform']
+        tr = [c for c in calls(up.body) if c.get('n') == 'transform' and len(c.get('args', [])) == 4]
         if tr:
-            ok = any(x.get('n') == 'tolower' or 'tolower' in str(x.get('q')) for x in walk(tr[0]))
-    ctx.ob('C13.N2', 'uptolow', ok, up.where, why, sample='for i in [0,length): str[i]=tolower(str[i])')
+            recognised = True
+
+            def rng(x, nm):
+                x = strip(x, casts=True)
+                while x.get('k') == 'construct' and len(x['args']) == 1:
+                    x = strip(x['args'][0], casts=True)
+                return x.get('k') == 'call' and x.get('n') == nm and is_param(x.get('obj'), 0)
+            whole = rng(tr[0]['args'][0], 'begin') and rng(tr[0]['args'][1], 'end') and rng(tr[0]['args'][2], 'begin')
+            fn_ = strip(tr[0]['args'][3], casts=True)
+            lower = False
+            if fn_.get('k') == 'fnref':
+                if fn_['q'].split('::')[-1] == 'tolower':
+                    lower = True
+                else:
+                    g = prog.by_q.get(fn_['q'], [])
+                    if len(g) == 1 and len(g[0].params) == 1:
+                        rets = [n_ for n_ in nodes(g[0].body, 'return')]
+                        if len(rets) == 1 and len(flat_stmts(g[0].body)) == 1:
+                            tl = [x for x in calls(rets[0]) if x.get('n') == 'tolower']
+                            oth = [x for x in calls(rets[0]) if x.get('n') != 'tolower']
+                            lower = len(tl) == 1 and not oth and any(is_param(strip(a_, casts=True), 0) for a_ in tl[0]['args'])
+            ok = whole and lower
+            why = 'std::transform does not apply tolower to [begin, end) of the string in place'
+    ctx.ob('C13.N2', 'uptolow', ok if recognised else None, up.where, why if recognised else 'the case mapping is written in an idiom outside the recognised ones: not decided',
+           sample='for i in [0,length): str[i]=tolower(str[i])')
     # ---- N3/N4
     want = {'remove_line': '-', 'remove_whitespace': ' '}
     for n in ('remove_line', 'remove_whitespace'):
-        verdict, what, lit = deletion_loop(helpers[n])
-        if verdict is None:
-            raise AnalysisBroken('%s: deletion idiom not recognised (%s)' % (n, what))
+        verdict, what, lit = deletion_loop(helpers[n], prog)
         ctx.ob('C13.N3', n, verdict, helpers[n].where, '%s: %s' % (n, what), sample='%s: %s' % (n, what))
-        ctx.ob('C13.N4', n, lit == want[n], helpers[n].where, '%s deletes %r, expected %r' % (n, lit, want[n]), sample='%s deletes %r' % (n, lit))
+        ctx.ob('C13.N4', n, (lit == want[n]) if (verdict is not None or lit is not None) else None, helpers[n].where, '%s deletes %r, expected %r' % (n, lit, want[n]), sample='%s deletes %r' % (n, lit))
     others = [c.get('n') for c in calls(up.body) if c.get('n') in ('toupper', 'erase', 'replace')]
     ctx.ob('C13.N4', 'uptolow-only-tolower', not others, up.where, 'uptolow also calls %s' % others, sample='only std::tolower', nontrivial=False)
     # ---- N5
